@@ -698,6 +698,11 @@ class TermEngine:
             cs = CallSite(fn, b, callee, args, t["dest"], term, t["line"], t.get("exp", False), t["args"])
             self.calls.append(cs)
             self.calls_by_bb[b] = cs
+            # `slot.replace(v)` / `slot.insert(v)` on an Option place is the assignment `slot = Some(v)` (and hands back the
+            # old content): recorded as the store it is, so that rules about what is written where read it
+            if nm in ("replace", "insert") and "ption" in (callee.def_ or "") and len(args) == 2 and \
+                    isinstance(args[0], tuple) and args[0] and args[0][0] == "call" and args[0][1].name in ("index_mut", "get_unchecked_mut"):
+                self.stores.append((b, args[0], ("agg", "adt", "std::option::Option", "Some", (args[1],), ("0",)), t["line"]))
             # mutable references passed to the callee: the referent is modified
             if nm == "swap" and (callee.def_ or "").endswith("mem::swap") and len(args) == 2 and \
                     all(isinstance(a, tuple) and a[0] == "mutref" for a in args) and args[0][1] != args[1][1]:
